@@ -2,14 +2,15 @@
 
 PROPERTIES = {
     "C12": dict(
-        modules=["simulation_order"],
+        modules=["simulation_order", "dyn_compile"],
         level="proof",
         claim="call-order automata over a ghost event trace, written from docs/reference/dynamic_scenarios.rst steps 1-10: one iteration of "
         "Simulation._run (loop invariant incl. trace clause; length relations of trajectory/actionSequence vs currentTime at the loop head and at "
         "every return); DynamicScenario._step / _runMonitors / _checkSimulationTerminationConditions; Behavior._step; counting contracts for "
-        "`terminate after`, `do ... for` and maxSteps",
+        "`terminate after`, `do ... for` and maxSteps; DynamicScenario._invokeInner judged by trace rules (first step in the step of the invocation, one step per time step, return without waiting "
+        "when the last sub-scenario ends, terminate simulation handed up at once); compiler shape of wait / terminate / terminate simulation / do / do-for / do-until (contracts/dyn_compile.py)",
         note="simulator, scenarios, agents' behaviors and monitors are modelled objects whose methods log events and return every documented kind of result",
         assumptions=["A1: durations in seconds are N / timestep over the reals (float effects such as 1.1/0.1 > 11 are not seen)"],
-        not_reached=["simulator back ends", "the stuck-behavior alarm", "compiler: visit_Wait* / visit_Terminate* and the plain visit_Do / visit_DoFor / visit_DoUntil (visit_DoChoose / visit_DoShuffle with makeDoLike and generateInvocation inlined are under contract for C19, contracts/compiler_do.py)", "DynamicScenario._invokeInner (sub-scenario stepping generator)", "Simulation.updateObjects (read-back order)"],
+        not_reached=["simulator back ends", "the stuck-behavior alarm", "compiler: visit_WaitFor / visit_WaitUntil / visit_TerminateAfter and the @context decorator (which statement is legal where; exercised by the replay drivers of contracts/dyn_compile.py only); visit_DoChoose / visit_DoShuffle are under contract for C19 (contracts/compiler_do.py)", "Simulation.updateObjects (read-back of every dynamic property of every object: not attempted -- needs models for set() over a table of type objects and isinstance against type values; the position of the call in the step is covered by Simulation._run)"],
     )
 }
